@@ -85,9 +85,11 @@ def classify(prov, mk):
             if bad or True:
                 return "text-escape-in-attr", labels, wit or "escape() without quote map inside an attribute value"
     if bad:
-        real = [o for o in origins if o[0] in DANGEROUS and not (o[0] == "UNKNOWN" and o[1] and o[1][-1] == "depth bound")]
+        real = [o for o in origins if o[0] in DANGEROUS and o[0] != "UNKNOWN"]
         if not real:
-            return "undecided", labels, wit  # only the analysis' own depth bound stands in the way: not a finding
+            # only values the analysis could not trace (an unresolved call, its own depth bound) stand in the way: no caller-
+            # controlled string was shown to arrive here, so this is an analysis gap, not a finding
+            return "undecided", labels, wit
         return "unsanitised", labels, wit
     return "safe", labels, "origins: %s" % ",".join(sorted(labels))
 
